@@ -544,6 +544,8 @@ fn run(input: RunInput) -> ScenFuture {
                 w.violate("response-without-handler", "rpc", format!("nonce {} succeeded but no handler ever saw it", o.nonce));
             }
         }
+        let total_bytes: u64 = outcomes.iter().map(|o| (gen_request(w.seed, o.nonce, tier, big_ok, routed).body.len() + gen_response(w.seed, o.nonce, tier, big_ok).body.len() + 2_000) as u64).sum();
+        let slow_allowance_ms = total_bytes / 2_400 * (2 * lat_max as u64 / 1000 + 1);
         if !faulty {
             for o in &outcomes {
                 // with a frame limit, an RPC with an oversized frame fails by design (C15)
@@ -562,8 +564,12 @@ fn run(input: RunInput) -> ScenFuture {
                     w.violate("rpc-failed-without-faults", "rpc", format!("nonce {} n{}>n{} failed on a fault-free network: {e}", o.nonce, o.caller + 1, o.callee + 1));
                     break;
                 }
+                // (liveness proxy, not a latency promise: under heavy reordering - per-datagram
+                // jitter of tens of milliseconds - QUIC's loss detection keeps the congestion window
+                // at its minimum of two packets per round trip, and everything sent in the run
+                // shares that; thorough-tier seed 18199476129760249185 moved 12 MB at 160 KB/s)
                 let took_ms = (o.finished_ns - o.started_ns) / 1_000_000;
-                if took_ms > 60_000 {
+                if took_ms > 60_000 + slow_allowance_ms {
                     w.violate("rpc-slow-without-faults", "rpc", format!("nonce {} took {took_ms} ms of virtual time", o.nonce));
                 }
             }
